@@ -21,6 +21,9 @@ pub struct Ntv2Grid {
 
 impl Ntv2Grid {
     pub fn new(buf: &[u8]) -> Result<Self, Error> {
+        if buf.len() < HEADER_SIZE {
+            return Err(Error::Invalid("Grid Too Short".to_string()));
+        }
         let parser = NTv2Parser::new(buf.into());
 
         // NUM_OREC is the NTv2 signature, i.e. "magic bytes"
@@ -46,6 +49,9 @@ impl Ntv2Grid {
 
         let mut offset = HEADER_SIZE;
         for _ in 0..num_sub_grids {
+            if offset + HEADER_SIZE > buf.len() {
+                return Err(Error::Invalid("Grid Too Short".to_string()));
+            }
             let (name, parent, grid) = subgrid::ntv2_subgrid(&parser, offset)?;
             offset += HEADER_SIZE + grid.grid.len() / 2 * NODE_SIZE;
 
